@@ -246,6 +246,47 @@ Theorem C18_alias_member_is_readable am n s :
   Inv s -> snd (alias_read am (QContains n) s) = Ret (VBool true) -> alias_getitem am (KName n) s <> Raise KeyError.
 Proof. exact (alias_member_is_readable am n s). Qed.
 
+(* ---------------------------------------------------------------- reindex() *)
+(* reindex_with rn fill span' s = VectorContainer.reindex as the code runs it, `rn` being the name resolution of self[...] (identity
+   for a plain object, `resolve am` for an aliased one); the aliases themselves live outside the container state and are carried by
+   copy() unchanged.  (1) the aliased object's reindex IS the twin's; (2) it keeps index / names / attributes / strict flag and
+   stores nothing under alias names; (3) on a plain object satisfying the invariant it never raises, every variable keeps its dtype,
+   gets the fill cell in new periods and its old cell (label looked up by first occurrence) in kept ones; (4) the result
+   satisfies the invariant for the NEW span with one cell per period. *)
+Theorem C18_alias_reindex_twin am fill new_span s :
+  (forall x, In x (index s) -> ~ In x (akeys (amap am))) ->
+  alias_reindex am fill new_span s = reindex_plain fill new_span s.
+Proof. exact (alias_reindex_twin am fill new_span s). Qed.
+
+Theorem C18_reindex_frame rn fill new_span s s' :
+  reindex_with rn fill new_span s = Ret s' ->
+  span s' = new_span /\ index s' = index s /\ names s' = names s /\ registry s' = registry s /\ adict s' = adict s /\
+  strict s' = strict s /\ kind s' = kind s /\
+  (forall x, assoc x (vars s') <> None -> assoc x (vars s) <> None \/ In x (index s)).
+Proof. exact (reindex_frame rn fill new_span s s'). Qed.
+
+Theorem C18_alias_reindex_no_storage_under_aliases am fill new_span s s' k :
+  alias_reindex am fill new_span s = Ret s' ->
+  In k (akeys (amap am)) -> assoc k (vars s) = None -> ~ In k (index s) ->
+  assoc k (vars s') = None /\ ~ In k (index s').
+Proof. exact (alias_reindex_no_storage_under_aliases am fill new_span s s' k). Qed.
+
+Theorem C18_reindex_plain_spec fill new_span s :
+  InvV s ->
+  exists s', reindex_plain fill new_span s = Ret s' /\
+    span s' = new_span /\ index s' = index s /\
+    (forall x src, In x (index s) -> assoc x (vars s) = Some src ->
+       assoc x (vars s') = Some (mkVar (vdtype src) [length new_span]
+                                  (write_positions (vdata src) (positions (span s) new_span)
+                                                   (repeat (fill x (vdtype src)) (length new_span))))) /\
+    (forall x, ~ In x (index s) -> assoc x (vars s') = assoc x (vars s)).
+Proof. exact (reindex_plain_spec fill new_span s). Qed.
+
+Theorem C18_reindex_plain_inv fill new_span s s' :
+  Inv s -> (forall x, assoc x (vars s) <> None -> In x (index s)) ->
+  reindex_plain fill new_span s = Ret s' -> Inv s' /\ InvD s'.
+Proof. exact (reindex_plain_inv fill new_span s s'). Qed.
+
 (* ---------------------------------------------------------------- to_dataframe(use_aliases=True) *)
 (* never raises on a constructed object (the ambiguity is rejected by __init__), one column per exported variable *)
 Theorem C18_export_total am :
@@ -322,6 +363,12 @@ Print Assumptions C18_alias_contains_same_target.
 Print Assumptions C18_alias_member_is_readable.
 Print Assumptions alias_is_a_member.
 Print Assumptions hooks_on_mA.
+Print Assumptions C18_alias_reindex_twin.
+Print Assumptions C18_reindex_frame.
+Print Assumptions C18_alias_reindex_no_storage_under_aliases.
+Print Assumptions C18_reindex_plain_spec.
+Print Assumptions C18_reindex_plain_inv.
+Print Assumptions reindex_mA.
 Print Assumptions C18_export_total.
 Print Assumptions C18_export_rename_only.
 Print Assumptions C18_preferred_title.
